@@ -46,9 +46,9 @@ func runEmbedding(pre, stmts []string) (o embOutcome, internal string) {
 	}
 	var last run.Res
 	for _, st := range stmts {
-		// a statement marked with a leading "!" is expected to fail; the session carries on
-		tolerate := strings.HasPrefix(st, "!")
-		st = strings.TrimPrefix(st, "!")
+		// a statement marked with a leading \x01 is expected to fail; the session carries on
+		tolerate := strings.HasPrefix(st, "\x01")
+		st = strings.TrimPrefix(st, "\x01")
 		last = s.Run(st, false, 2000000)
 		switch {
 		case last.Panic != "":
